@@ -93,6 +93,57 @@ Proof. intros H. cbn [reaches_option]. rewrite H. reflexivity. Qed.
 Lemma reaches_option_le T n m i : (n <= m)%nat -> reaches_option T n i = false -> reaches_option T m i = false.
 Proof. intros Hle H. induction Hle as [|m Hle IH]; [exact H | apply reaches_option_more; exact IH]. Qed.
 
+(* ------------------------------------------------------------------ a oneOf with a common tag against an
+   internally / adjacently tagged enum whose variants are named by the tag constants *)
+Lemma tagged_union_x tg bs names (vs : list variant) :
+  (forall b, In b bs -> exists x, assoc tg (sch_props b) = Some (xsimple_sch [JStr x]) /\
+                                  mem_ustr tg (sch_required b) = true /\ null_only b = false) ->
+  opt_all_map (fun b => match assoc tg (sch_props b) with Some ts => cstr ts | None => None end) bs = Some names ->
+  map v_raw vs = names ->
+  no_null bs && ctag_ok bs tg && tags_x tg bs vs = true.
+Proof.
+  intros Hbs Hnames Hraw.
+  assert (Hbt : forall b, In b bs -> exists x, branch_tag_of tg b = Some x /\ In x names /\ mem_ustr tg (sch_required b) = true).
+  { clear Hraw. revert names Hnames. induction bs as [|b0 r IH]; intros names Hn b Hb; [destruct Hb|].
+    cbn [opt_all_map] in Hn.
+    destruct (Hbs b0 (or_introl eq_refl)) as (x0 & Ha0 & Hr0 & _). rewrite Ha0 in Hn. cbn [cstr xsimple_sch] in Hn.
+    destruct (opt_all_map _ r) as [rest|] eqn:Hrest; [|discriminate]. injection Hn as <-.
+    destruct Hb as [<-|Hb].
+    - exists x0. split; [unfold branch_tag_of; rewrite Ha0; reflexivity|]. split; [left; reflexivity|exact Hr0].
+    - destruct (IH (fun b' Hb' => Hbs b' (or_intror Hb')) rest eq_refl b Hb) as (x & H1 & H2 & H3).
+      exists x. split; [exact H1|]. split; [right; exact H2|exact H3]. }
+  assert (Hvb : forall x, In x names -> exists b, In b bs /\ branch_tag_of tg b = Some x).
+  { clear Hraw Hbt. revert names Hnames. induction bs as [|b0 r IH]; intros names Hn x Hx.
+    - cbn in Hn. injection Hn as <-. destruct Hx.
+    - cbn [opt_all_map] in Hn.
+      destruct (Hbs b0 (or_introl eq_refl)) as (x0 & Ha0 & _). rewrite Ha0 in Hn. cbn [cstr xsimple_sch] in Hn.
+      destruct (opt_all_map _ r) as [rest|] eqn:Hrest; [|discriminate]. injection Hn as <-.
+      destruct Hx as [<-|Hx].
+      + exists b0. split; [left; reflexivity|]. unfold branch_tag_of. rewrite Ha0. reflexivity.
+      + destruct (IH (fun b' Hb' => Hbs b' (or_intror Hb')) rest eq_refl x Hx) as (b & Hb & Ht).
+        exists b. split; [right; exact Hb|exact Ht]. }
+  assert (H1 : no_null bs = true).
+  { unfold no_null. apply negb_true_iff. apply Bool.not_true_is_false. intro Hex.
+    apply existsb_exists in Hex. destruct Hex as (b & Hb & Hnull).
+    destruct (Hbs b Hb) as (x & _ & _ & Hn). congruence. }
+  assert (H2 : ctag_ok bs tg = true).
+  { unfold ctag_ok, common_tag. destruct bs as [|b0 r]; [reflexivity|].
+    destruct (filter _ (map fst (sch_props b0))) as [|tg' [|]] eqn:Hfl; try reflexivity.
+    assert (Hin : In tg (filter (fun tg0 => forallb (fun b => is_some (branch_tag_of tg0 b) && mem_ustr tg0 (sch_required b)) (b0 :: r))
+                                (map fst (sch_props b0)))).
+    { apply filter_In. split.
+      - destruct (Hbs b0 (or_introl eq_refl)) as (x0 & Ha0 & _). apply assoc_In in Ha0.
+        apply in_map_iff. exists (tg, xsimple_sch [JStr x0]). split; [reflexivity|exact Ha0].
+      - apply forallb_forall. intros b Hb. destruct (Hbt b Hb) as (x & Hx & _ & Hr). rewrite Hx, Hr. reflexivity. }
+    rewrite Hfl in Hin. destruct Hin as [<-|[]]. apply ustr_eqb_refl. }
+  rewrite H1, H2. cbn [andb]. unfold tags_x. apply andb_true_iff. split.
+  - apply forallb_forall. intros b Hb. unfold branch_tag. destruct (Hbt b Hb) as (x & Hx & Hin & Hr). rewrite Hx, Hr.
+    unfold raws. rewrite Hraw. rewrite (proj2 (mem_ustr_In x names) Hin). reflexivity.
+  - apply forallb_forall. intros vr Hvr. apply existsb_exists.
+    destruct (Hvb (v_raw vr)) as (b & Hb & Ht); [rewrite <- Hraw; apply in_map; exact Hvr|].
+    exists b. split; [exact Hb|]. unfold branch_tag. rewrite Ht. apply ustr_eqb_refl.
+Qed.
+
 Section ExactMain.
   Variable cls : Heck.CharClasses.
   Variable re : ustring -> ustring -> bool.
@@ -507,12 +558,37 @@ Section ExactMain.
         destruct Hrk as [(r & -> & ->)|[(-> & ->)|(bs & tg & -> & -> & -> & Hok)]]; cbn [kshape] in Hs; cbn [Es].
         * destruct Hs as (Hri & _). apply refx_here. apply mem_pair_x_index. exact Hri.
         * subst oneo. unfold has in Hs. rewrite (gp_leaf _ _ _ _ _ _ _ _ _ _ _ _ _ _ _ Hs I). reflexivity.
-        * (* externally tagged: no null branch, no common tag, every branch names variants of the right kind *)
-          assert (Htg : tg = TagExternal).
-          { clear - Hf. cbn [frag_kind] in Hf. apply andb_true_iff in Hf. destruct Hf as [_ Hp].
-            destruct tg; try discriminate Hp. reflexivity. }
-          subst tg.
+        * destruct tg as [|tg|tg ct|].
+          4: { exfalso. clear - Hf. cbn [frag_kind] in Hf. apply andb_true_iff in Hf. destruct Hf as [_ Hp]. discriminate Hp. }
+          2: { (* internally tagged *)
+            destruct Hs as (n & vs & deny & bes & names & ids & Hd & Hnames & Hndn & Hv & Hraw & Hident & Hbr).
+            unfold has in Hd. cbn [union_x]. rewrite Hd. cbn [wrapper_of].
+            cbn [frag_kind] in Hf. rewrite Hnames in Hf.
+            apply andb_true_iff in Hf. destruct Hf as [Hf _].
+            apply andb_true_iff in Hf. destruct Hf as [Hf _]. apply andb_true_iff in Hf. destruct Hf as [_ Hbok].
+            cbn [branches_ok] in Hbok. apply andb_true_iff in Hbok. destruct Hbok as [Hbok _].
+            rewrite forallb_forall in Hbok.
+            apply (tagged_union_x tg bs names vs); [|exact Hnames|exact Hraw].
+            intros b Hb. pose proof (Hbok b Hb) as Hcb. change (int_cond cls tg b = true) in Hcb.
+            destruct (int_branch_cases cls tg b Hcb) as (bprops & breq & closed & x & -> & Ha & Hreq & _).
+            exists x. split; [exact Ha|]. split; [exact Hreq|reflexivity]. }
+          2: { (* adjacently tagged *)
+            destruct Hs as (n & vs & deny & bes & names & ids & Hd & Hnames & Hndn & Hv & Hraw & Hident & Hbr).
+            unfold has in Hd. cbn [union_x]. rewrite Hd. cbn [wrapper_of].
+            cbn [frag_kind] in Hf. rewrite Hnames in Hf.
+            apply andb_true_iff in Hf. destruct Hf as [Hf _].
+            apply andb_true_iff in Hf. destruct Hf as [Hf _]. apply andb_true_iff in Hf. destruct Hf as [_ Hbok].
+            cbn [branches_ok] in Hbok. apply andb_true_iff in Hbok. destruct Hbok as [Hbok _].
+            apply andb_true_iff in Hbok. destruct Hbok as [Hbok Htc]. apply negb_true_iff in Htc.
+            rewrite forallb_forall in Hbok.
+            apply (tagged_union_x tg bs names vs); [|exact Hnames|exact Hraw].
+            intros b Hb. pose proof (Hbok b Hb) as Hcb. change (adj_cond tg ct b = true) in Hcb.
+            destruct (adj_branch_cases tg ct b Htc Hcb) as (breq & x & Hreq & [->|[(_ & sc & ->)|(_ & sc & ->)]]);
+              exists x; cbn [sch_props sch_required tbranch assoc]; rewrite ?ustr_eqb_refl, ?Htc;
+              (split; [reflexivity|]); (split; [exact Hreq|reflexivity]). }
+          (* externally tagged: no null branch, no common tag, every branch names variants of the right kind *)
           destruct Hs as (n & vs & deny & bes & names & ids & Hd & Hnames & Hndn & Hv & Hraw & Hident & Hbr).
+          cbn [variant_names] in Hnames.
           unfold has in Hd. cbn [union_x]. rewrite Hd. cbn [wrapper_of].
           assert (Hndv : NoDup (map v_raw vs)) by (rewrite Hraw; exact Hndn).
           assert (Hcase : forall b, In b bs ->
